@@ -114,3 +114,98 @@ class PublishProcessFailures:
     def post_only_application_states(self, old):
         return (forall(ProcessStatus, lambda p: p._state == at(old, p)._state)
                 and forall(SupvisorsInstanceStatus, lambda s: s._state == at(old, s)._state))
+
+
+# --------------------------------------------------------------------------- call-outs of the Context process handlers
+@contract('external_com.eventinterface:EventPublisherInterface.send_process_event', props=[])
+class SendProcessEvent:
+    assumed = True
+    raises = ()
+    effect = 'send_process_event'
+
+    def modifies(self):
+        return []
+
+
+# ------------------------------------------------------------------------------------------ handshake XML-RPCs (C13)
+# ASSUMED: the XML-RPC client of a peer.  SupervisorProxy._get_proxy builds it (supervisor.childutils.getRPCInterface);
+# the methods of its `supvisors` namespace answer what the RPCInterface of the REMOTE instance returns - modelled as a
+# PURE function of the client and the arguments returning a symbolic payload of the documented shape (two calls agree;
+# specifications name the answer through the same uf) - or fail with an XML-RPC Fault (request refused by the remote,
+# remote not ready) / a transport error (OSError).
+def client_of(proxy):
+    """ghost: the XML-RPC endpoint of the peer a SupervisorProxy talks to (re-creating the client object - local proxy,
+    every 20 minutes - yields the same endpoint)"""
+    return uf('xmlrpc_client', 'ServerProxy', proxy)
+
+
+def remote_instance_info(proxy, identifier):
+    """answer of the peer to supvisors.get_instance_info(identifier)"""
+    return uf('remote_get_instance_info', 'List[Payload]', client_of(proxy).supvisors, identifier)
+
+
+def remote_strategies(proxy):
+    """answer of the peer to supvisors.get_strategies()"""
+    return uf('remote_get_strategies', 'Payload', client_of(proxy).supvisors)
+
+
+@contract('internal_com.supervisorproxy:SupervisorProxy._get_proxy', props=[])
+class GetProxy:
+    """builds the XML-RPC client from the Supervisor environment and the peer's host / port: reads only"""
+    assumed = True
+    raises = ()
+    returns = 'ServerProxy'
+
+    def modifies(self):
+        return []
+
+    def post_client(self, result):
+        return result is client_of(self)
+
+
+@external('SupvisorsRPC.get_instance_info')
+class RemoteGetInstanceInfo:
+    """RPCInterface.get_instance_info of the remote: the serial() payloads of the instances the identifier resolves to -
+    at least one (BAD_NAME Fault otherwise), each carrying the state code the REMOTE gives that instance"""
+    returns = 'List[Payload]'
+    params = ['rpc', 'identifier']
+    raises = ('supervisor.compat.xmlrpclib.Fault', 'OSError')
+
+    def post_answer(rpc, identifier, result):
+        return (result is uf('remote_get_instance_info', 'List[Payload]', rpc, identifier)
+                and len(result) >= 1 and 'statecode' in result[0])
+
+
+@external('SupvisorsRPC.get_strategies')
+class RemoteGetStrategies:
+    """RPCInterface.get_strategies of the remote: any dict (no key is assumed present: the comparison is what is proved)"""
+    returns = 'Payload'
+    params = ['rpc']
+    raises = ('supervisor.compat.xmlrpclib.Fault', 'OSError')
+
+    def post_answer(rpc, result):
+        return result is uf('remote_get_strategies', 'Payload', rpc)
+
+
+@external('SupvisorsRPC.get_network_info')
+class RemoteGetNetworkInfo:
+    """RPCInterface.get_network_info of the remote: its network description (identifier, nick, host, addresses), decoded
+    into a NEW dict by the XML-RPC client (the caller stamps it)"""
+    returns = 'Payload'
+    fresh = True
+    params = ['rpc', 'identifier']
+    raises = ('supervisor.compat.xmlrpclib.Fault', 'OSError')
+
+
+@external('SupvisorsRPC.get_instance_state_modes')
+class RemoteGetInstanceStateModes:
+    returns = 'List[Payload]'
+    params = ['rpc', 'identifier']
+    raises = ('supervisor.compat.xmlrpclib.Fault', 'OSError')
+
+
+@external('SupvisorsRPC.get_all_local_process_info')
+class RemoteGetAllLocalProcessInfo:
+    returns = 'List[Payload]'
+    params = ['rpc']
+    raises = ('supervisor.compat.xmlrpclib.Fault', 'OSError')
